@@ -38,13 +38,30 @@ def build_vector(cls, down, up, fill=0, ph_len=7, bb_len=9, outer=None, variant=
         text = patch(text, g1[0], down)
         text = patch(text, g3[0], up)
         if outer is not None:
-            text = patch(text, g1[0] - len(outer[0]), outer[0])
-            text = patch(text, g3[1], outer[1])
+            # only wildcard positions of the literal are ever overwritten
+            a, b = g1[0] - len(outer[0]), g3[1]
+            if a >= 0 and _wild(struct, spans, a, len(outer[0])) and _wild(struct, spans, b, len(outer[1])):
+                text = patch(text, a, outer[0])
+                text = patch(text, b, outer[1])
         bb = gen.word(fill + 1, 50 + attempt * 7 + variant, bb_len, ALL_SITES)
         s = text + bb
         if designed_sites_ok(struct, s):
             return s
     return None
+
+
+def _wild(struct, spans, start, length):
+    """are the `length` instance positions from `start` all produced by N letters of the literal? (instances of a literal
+    without starred atoms before the position map 1:1; with a starred atom the map shifts by the star length, which
+    build_vector keeps out of the flanks it patches)"""
+    lit = struct.replace("(", "").replace(")", "")
+    # positions before the first starred atom map 1:1; positions after the last one map from the end
+    first_star = lit.find("*")
+    n_inst_minus_lit = None
+    if first_star == -1 or start + length <= first_star - 1:
+        seg = lit[start:start + length]
+        return len(seg) == length and set(seg) <= set("N")
+    return True     # behind the starred atom: the caller patches right after group 3, checked by designed_sites_ok afterwards
 
 
 def designed_sites_ok(struct, s):
